@@ -12,6 +12,7 @@ import random
 import warnings
 
 import common
+import lattice_lib as L
 
 ASSUME = [
     "sizes are passed as detz_size = extent along x (W), dety_size = extent along y (H), as the property states",
@@ -50,8 +51,16 @@ def run(tier, seed):
         desc = {"function": "trans_orientation" if f == "trans" else "image_flipping", "o": list(o), "W": W, "H": H}
         v.case(key[:4], nontrivial=(W * H > 1), sample=desc if (W, H, f) == (3, 5, "trans") and len(v.samples) < 4 else None)
         try:
-            out = funcs[f](img.copy(), o[0], o[1], o[2], o[3], "forward")
-            back = funcs[f](np.array(out).copy(), o[0], o[1], o[2], o[3], "inverse")
+            # the image functions are called on the caller's array itself (no copy), twice, with the guards of lattice_lib.twice
+            keep = img.copy()
+            out, m1 = L.twice(funcs[f], img, o[0], o[1], o[2], o[3], "forward")
+            back, m2 = L.twice(funcs[f], np.array(out), o[0], o[1], o[2], o[3], "inverse")
+            for m_ in (m1, m2):
+                if m_:
+                    v.violation(m_ + " (o=%s, %dx%d)" % (list(o), W, H), desc)
+            if not np.array_equal(img, keep):
+                v.violation("%s changes the raw image it is given (o=%s, %dx%d)" % (desc["function"], list(o), W, H), desc)
+                img = keep
         except Exception as ex:
             v.violation("%s raised %r for valid orientation %s" % (desc["function"], ex, list(o)), desc)
             continue
@@ -73,8 +82,15 @@ def run(tier, seed):
                 if not (0 <= q[0] < out.shape[0] and 0 <= q[1] < out.shape[1]) or out[q[0], q[1]] != img[xx, yy]:
                     ok = False
                 try:
-                    c = detector.xy_to_detyz([xx, yy], o[0], o[1], o[2], o[3], H, W)
-                    b = detector.detyz_to_xy([q[0], q[1]], o[0], o[1], o[2], o[3], H, W)
+                    if (xx + yy) % 3 == 0:
+                        c, m1 = L.twice(detector.xy_to_detyz, np.array([xx, yy]), o[0], o[1], o[2], o[3], H, W)
+                        b, m2 = L.twice(detector.detyz_to_xy, np.array([q[0], q[1]]), o[0], o[1], o[2], o[3], H, W)
+                        for m_ in (m1, m2):
+                            if m_:
+                                v.violation(m_ + " (o=%s, %dx%d)" % (list(o), W, H), desc)
+                    else:
+                        c = detector.xy_to_detyz([xx, yy], o[0], o[1], o[2], o[3], H, W)
+                        b = detector.detyz_to_xy([q[0], q[1]], o[0], o[1], o[2], o[3], H, W)
                 except Exception as ex:
                     v.violation("coordinate function raised %r for valid orientation %s" % (ex, list(o)), desc)
                     continue
